@@ -124,7 +124,9 @@ CHECKS = {
                        "bowl must see exactly one GetWriter or Transpose per whitelisted index and none for others; a recording pool may "
                        "only see reads of old files referenced (per the decoded patch) by whitelisted series; GetTouchedFiles == |W|; "
                        "whitelisted files byte-equal to the new build. A dedicated stage builds >2050 files so that a skipped bsdiff "
-                       "series targets old index 2049 (the end marker's numeric value)."),
+                       "series targets old index 2049 (the end marker's numeric value). One third of the cases are additionally applied in two "
+                       "sessions (stop at a checkpoint inside a multi-edit file, resume from its gob copy in a new patcher with the whitelist set "
+                       "again): no call for a non-whitelisted file in either session, touched counts add up to |W|, same output."),
         "level_note": "magic values other than 2049 may exist; the generator is aimed at this one because reading skipFile shows it matters.",
         "rule": ("rapid draws (build pair, compression, optimized?, whitelist mode). Non-trivial: non-empty whitelist and a skipped series "
                  "adjacent to a processed one. Distinct: SHA-1 of the spec."),
@@ -175,7 +177,9 @@ CHECKS = {
         "level": "exploration",
         "technique": "rapid property-based testing: differential (diff-time vs stand-alone signature) plus a reference hash model, then validation of the pristine build",
         "level_text": ("Generated builds with a size sweep (block-boundary classes, >4MiB, many small files, empty-only trees, symlinks, empty "
-                       "dirs) x signature compression x old build (empty, identical, unrelated). The signature written at diff time is read back "
+                       "dirs) x signature compression x old build (empty, identical, unrelated); in 1/3 of the cases the producers read the source through "
+                       "readers that return short reads, yield, and may return their last bytes together with io.EOF. Content includes full blocks "
+                       "of one even byte value (weak hash 0 without being zeroes). The signature written at diff time is read back "
                        "and compared with the walked container (proto.Equal), with ComputeSignature element-wise, and with a reference model "
                        "(own weak hash + crypto/md5 per 64KiB slice, one hash for an empty file, short last block). Validation of the pristine "
                        "build: wounds-file mode nil / no file / no wounds; AssertValid nil."),
@@ -245,7 +249,8 @@ CHECKS = {
         "level": "exploration",
         "technique": "rapid property-based testing against a first-bad-block / wound-tiling reference model over generated contents and write slicings",
         "level_text": ("1-3 files per pool (sizes around block multiples, empty) x written content (equal, flipped in a set of blocks, truncated, "
-                       "block-aligned prefix, extended, unrelated, one block dropped or doubled so that later blocks equal a neighbouring signed block) x write slicing (1..50, 1..3 blocks, boundary-straddling, bytewise) x mode. "
+                       "block-aligned prefix, extended, unrelated, one block dropped or doubled so that later blocks equal a neighbouring signed block) x write slicing (1..50, 1..3 blocks, boundary-straddling, bytewise; "
+                       "in 1/3 of the files the caller keeps writing the rest after a failed Write and only then closes) x mode. "
                        "Error mode: failure iff the model finds a first bad block b; the failing call is the one completing b; the inner pool "
                        "received exactly written[:b*64KiB] (everything when none). Wound modes (plain and with the aggregate filter): markers in "
                        "offset order, tiling [0, min(written, signed)) on the signed block grid without gaps, FILE wounds exactly on differing blocks. "
@@ -267,7 +272,8 @@ CHECKS = {
         "technique": "rapid property-based testing: write/read round trip of generated message sequences x compressors, and resume-from-every-popped-checkpoint differential",
         "level_text": ("Generated sequences of 0..60 messages of mixed types (SyncOp data/range/end, SyncHeader, bsdiff Control, BlockHash) with body "
                        "sizes 0, small, 32KiB-8..32KiB+1, powers of two +-1, >4MiB (rare), compressible or not, x {none, gzip -2..9, brotli 0..11} x "
-                       "WantSave bit patterns. Oracles: read-back proto.Equal to what was written, then io.EOF; every popped checkpoint is "
+                       "WantSave bit patterns; 1/6 of the messages have every field at its default (0 bytes on the wire) and in 3/4 of the cases "
+                       "the reader reuses one message object per type, as the patcher does. Oracles: read-back proto.Equal to what was written, then io.EOF; every popped checkpoint is "
                        "gob-encoded, decoded, handed to a brand-new reader over the same bytes, which must yield exactly messages i.. and EOF, "
                        "where i is the index of the first message not yet returned at pop time (including i == number of messages)."),
         "level_note": "decompressor internals (savior) are exercised only through wharf's reader.",
@@ -285,7 +291,7 @@ CHECKS = {
         "level_text": ("(old,new) generated as runs of equal/differing bytes with run lengths {0..40, 8KiB-42..8KiB+58, 128KiB+-1, up to 140KiB}, new "
                        "shorter/longer/empty, on high-entropy AND periodic/constant content (on random data a mis-positioned reader degrades to "
                        "FRESH and stays right; on periodic data it shows). Writes sliced 1..100 / 1..300KiB / window-sized / bytewise; after each "
-                       "write nothing, Flush, or Flush + a new session resumed from the reported ReadOffset/OverlayOffset with the stale overlay "
+                       "write - and optionally right after creation, before any data - nothing, Flush, or Flush + a new session resumed from the reported ReadOffset/OverlayOffset with the stale overlay "
                        "tail kept or cut. Oracles: an independent decoder + reference replay == new; OverlayPatchContext.Patch onto a copy of old + "
                        "truncate == new; ReadOffset after a flush == bytes consumed; SKIP ops only cover bytes where old == new."),
         "level_note": "the old-file reader never returns short reads (bytes.Reader / os.File), like the readers the overlay bowl uses.",
@@ -348,8 +354,9 @@ CHECKS = {
         "technique": "rapid property-based testing: repeated runs under generated schedule perturbation compared byte for byte; the same harness under the Go race detector",
         "level_text": ("Generated build pairs (incl. files sharing blocks and a 'tie' shape: a new file made of two equally large old files) x "
                        "compression. Per case 4 runs of WritePatch with GOMAXPROCS in {1,2,3,16}, a source pool whose readers return generated "
-                       "short reads and yield/sleep at generated points, and yielding patch/signature writers; then 3 runs of Optimize with "
-                       "identical parameters. Oracles: byte equality of patch, signature and optimized output across runs; a -race build of the "
+                       "short reads and yield/sleep at generated points, and yielding patch/signature writers; then two diffs (the pair and the reversed pair) running concurrently in the same process, each compared "
+                       "with its solo bytes, then 3 runs of Optimize with identical parameters. The source pool's readers also return their last "
+                       "bytes together with io.EOF in half of the cases. Oracles: byte equality of patch, signature and optimized output across runs; a -race build of the "
                        "same harness must report nothing (GORACE=halt_on_error so the journalled case is the one that raced)."),
         "level_note": "goroutine schedules are sampled (GOMAXPROCS, injected yields/sleeps/short reads), not enumerated; a race needing one specific interleaving inside wharf's own goroutines may be missed.",
         "rule": ("rapid draws (build pair, compression, jitter bytes, optimizer partitions). evaluations = cases, sub_evaluations = diff/optimize "
